@@ -59,8 +59,7 @@ STORES = {'shm': 'cache_mem 8 MB\nmemory_cache_shared on\nmaximum_object_size_in
           'rock': 'cache_mem 0\n'}                                                                      # rock only: every hit goes through the disker
 
 
-QUICK_BOUND2 = {('purge', 'off', 'shm'), ('purge', 'off', 'rock'), ('read-during-write', 'off', 'shm'), ('read-during-write', 'on', 'shm'),
-                ('refresh', 'off', 'shm'), ('refresh', 'off', 'rock')}
+QUICK_BOUND2 = {('purge', 'off', 'shm'), ('purge', 'off', 'rock'), ('read-during-write', 'on', 'shm'), ('refresh', 'off', 'shm')}
 
 
 def cases_for(tier):
@@ -76,7 +75,9 @@ def cases_for(tier):
                             continue                      # framing only matters while the response is being received
                         if quick and fr == 'chunked' and (cf == 'off' or sz == '3pages'):
                             continue
-                        if quick and sz == '3pages' and (st == 'rock' or sc not in ('read-during-write', 'purge')):
+                        if quick and sz == '3pages' and (st, sc, cf) not in (('shm', 'read-during-write', 'on'), ('shm', 'purge', 'off')):
+                            continue
+                        if quick and sz == '1page' and st == 'rock':
                             continue
                         if quick:
                             bound = 2 if (sz == 'slot+1' and fr == 'cl' and (sc, cf, st) in QUICK_BOUND2) else 1
